@@ -480,7 +480,7 @@ func c14Run(in c14In, hdrFrame []byte, slow int) (obs c14Obs) {
 			}
 			sn.Sw = append(sn.Sw, st.state)
 			c := int64(0)
-			if st.hctx != nil && st.begun {
+			if st.hctx != nil && (st.begun || st.state == 2) {
 				c = 1
 				if st.hctx.Err() != nil {
 					c = 2
@@ -1261,6 +1261,18 @@ func TestVerifC14(t *testing.T) {
 	run("pinned", small(c14Ev{K: "connect", R: 1}, c14Ev{K: "lookup"}, c14Ev{K: "track"}, c14Ev{K: "start"}, c14Ev{K: "closed"}))
 	run("pinned", c14In{NP: 2, NC: 2, NA: 2, NS: 1, Evs: []c14Ev{{K: "enrol", P: 1, C: 0, A: 1, R: 2}, {K: "connect", P: 1, C: 1, R: 2, Closed: true},
 		{K: "connect", P: 0, C: 0, R: 1, Closed: true}, {K: "closed", P: 1, C: 0}, {K: "connect", P: 1, C: 1, R: 1, Closed: true}}})
+	// re-admission of a registered peer while its handler runs, then the disconnect
+	run("pinned", c14In{NP: 1, NC: 2, NA: 1, NS: 2, Evs: []c14Ev{{K: "enrol", C: 0}, {K: "lookup", S: 0}, {K: "track", S: 0}, {K: "start", S: 0},
+		{K: "enrol", C: 0}, {K: "enrol", C: 1}, {K: "lookup", S: 1}, {K: "track", S: 1}, {K: "closed", C: 0}, {K: "closed", C: 1}, {K: "start", S: 1}}})
+	// a second handshake of a registered peer on a connection that has already closed, then the
+	// first connection closes
+	run("pinned", c14In{NP: 1, NC: 2, NA: 1, NS: 1, Evs: []c14Ev{{K: "enrol", C: 0}, {K: "enrol", C: 1, Closed: true}, {K: "closed", C: 0},
+		{K: "lookup", S: 0}}})
+	run("pinned", c14In{NP: 1, NC: 2, NA: 1, NS: 1, Evs: []c14Ev{{K: "connect", C: 0, R: 1}, {K: "connect", C: 1, R: 1, Closed: true},
+		{K: "closed", C: 1}, {K: "closed", C: 0}}})
+	// a second, open connection of a registered peer keeps it registered after the first closes
+	run("pinned", c14In{NP: 1, NC: 2, NA: 1, NS: 1, Evs: []c14Ev{{K: "enrol", C: 0}, {K: "enrol", C: 1}, {K: "closed", C: 0},
+		{K: "lookup", S: 0}, {K: "track", S: 0}, {K: "start", S: 0}, {K: "closed", C: 1}}})
 	run("pinned", small(c14Ev{K: "enrolrace"}))
 	run("pinned", small(c14Ev{K: "enrolrace"}, c14Ev{K: "lookup"}, c14Ev{K: "track"}, c14Ev{K: "start"}))
 	run("pinned", c14In{NP: 2, NC: 2, NA: 2, NS: 2, Evs: []c14Ev{{K: "enrol", P: 0, C: 0, A: 0, R: 1}, {K: "enrol", P: 0, C: 1, A: 0, R: 1},
